@@ -9,10 +9,10 @@ package goverter
 //@   props C09 C15 C17 C13 C16
 //@   propagates
 //@   maprange 1 unordered-result paths
-//@   at@C15 call os.MkdirAll#* assert arg0 == filepath.Dir(path) && arg1 == 0o755
-//@   at@C15,C16 call os.WriteFile#* assert arg0 == path && same(arg1, files[path]) && arg2 == 0o644
+//@   at@C15,C17 call os.MkdirAll#* assert arg0 == filepath.Dir(path) && arg1 == 0o755
+//@   at@C15,C16,C17 call os.WriteFile#* assert arg0 == path && same(arg1, files[path]) && arg2 == 0o644
 // every file of the result is written, each after its directory has been created
-//@   loop@C15,C16 2 invariant idx > 0 ==> reached("os.MkdirAll#1") && reached("os.WriteFile#1")
+//@   loop@C15,C16,C17 2 invariant idx > 0 ==> reached("os.MkdirAll#1") && reached("os.WriteFile#1")
 
 // ---- C17: generate everything in memory, write only after every converter succeeded ----
 //@ func GenerateConverters(c)
